@@ -41,7 +41,27 @@ impl<I: Iterator<Item = u8>> Iterator for Hinted<I> {
     }
 }
 
-pub const FLAVOURS: u8 = 12;
+/// An iterator that is not fused: after its first `None` it yields bytes again. A consumer must stop at the first `None`.
+struct Resuming<I> {
+    inner: I,
+    ended: bool,
+}
+
+impl<I: Iterator<Item = u8>> Iterator for Resuming<I> {
+    type Item = u8;
+    fn next(&mut self) -> Option<u8> {
+        if self.ended {
+            return Some(0xee);
+        }
+        let r = self.inner.next();
+        if r.is_none() {
+            self.ended = true;
+        }
+        r
+    }
+}
+
+pub const FLAVOURS: u8 = 13;
 
 /// Iterators of at most `s.len()` bytes with different kinds of `size_hint`: exact, unknown, an upper
 /// bound that is not reached, a lower bound of zero, a huge upper bound. Every one is a legal `Iterator`.
@@ -66,12 +86,13 @@ fn flavoured<'a>(s: &'a [u8], flavour: u8) -> Box<dyn Iterator<Item = u8> + 'a> 
         8 => Box::new(Hinted { inner: s.iter().copied(), hint: (0, Some(s.len())) }),
         9 => Box::new(s.iter().flat_map(|b| if b & 3 == 0 { None } else { Some(*b) })),
         10 => Box::new(s.iter().map_while(|b| if *b >= 0xe0 { None } else { Some(*b) })),
+        11 => Box::new(Resuming { inner: s.iter().copied(), ended: false }),
         _ => Box::new(s.iter().copied().step_by(2)),
     }
 }
 
 fn flavour_name(f: u8) -> &'static str {
-    ["slice", "vec", "from_fn", "filter", "take_while", "skip_while", "chain", "hint(0,MAX)", "hint(0,len)", "flat_map", "map_while", "step_by"][(f % FLAVOURS) as usize]
+    ["slice", "vec", "from_fn", "filter", "take_while", "skip_while", "chain", "hint(0,MAX)", "hint(0,len)", "flat_map", "map_while", "not-fused", "step_by"][(f % FLAVOURS) as usize]
 }
 
 #[derive(Debug, Clone)]
@@ -248,7 +269,7 @@ fn exh_ops() -> Vec<Op> {
 
 impl Prop for C18 {
     const ID: &'static str = "C18";
-    const RULE: &'static str = "stateful / model-based: N in {0,1,2,3,4,5,7,8,16,33,64,255,256} (and the Vec-backed Buffer impl with an unbounded model) x operation histories of length 0..40 over {push(b), extend_from_slice(s) with |s| in 0..=N+3, truncate(k) with k in 0..=N+3 or usize::MAX, clear, from_iter of <= N bytes through 12 iterator kinds (slice, Vec, from_fn, filter, take_while, skip_while, chain, flat_map, map_while, step_by, and two with a loose but legal size_hint) - the model is what the same iterator yields into a std Vec}; model = Vec<u8> with a capacity check. After every step: same Ok/Err(OutOfMemory), same contents, failing op leaves contents unchanged, Debug / {:x?} equal the slice's, equality with a buffer reached by a different history (incl. one with a stale byte beyond its length), inequality with a shorter / changed buffer. Non-trivial: the history contains a failing operation and a truncate/clear that shrank the buffer followed by a growing operation. Distinct = distinct (N, history).";
+    const RULE: &'static str = "stateful / model-based: N in {0,1,2,3,4,5,7,8,16,33,64,255,256} (and the Vec-backed Buffer impl with an unbounded model) x operation histories of length 0..40 over {push(b), extend_from_slice(s) with |s| in 0..=N+3, truncate(k) with k in 0..=N+3 or usize::MAX, clear, from_iter of <= N bytes through 13 iterator kinds (slice, Vec, from_fn, filter, take_while, skip_while, chain, flat_map, map_while, step_by, two with a loose but legal size_hint, and one that is not fused, i.e. yields bytes again after its first None) - the model is what the same iterator yields into a std Vec}; model = Vec<u8> with a capacity check. After every step: same Ok/Err(OutOfMemory), same contents, failing op leaves contents unchanged, Debug / {:x?} equal the slice's, equality with a buffer reached by a different history (incl. one with a stale byte beyond its length), inequality with a shorter / changed buffer. Non-trivial: the history contains a failing operation and a truncate/clear that shrank the buffer followed by a growing operation. Distinct = distinct (N, history).";
     type Case = Case;
     type Input = Input;
 
